@@ -710,6 +710,13 @@ def perturbed_configuration(ctx):
             ent["isDeprecatedLicenseId"] = dep
             items.insert(at, ent)
             new.append(ent[idk])
+        # ... and an entry WITHOUT the deprecation flag, directly after a deprecated entry (= not deprecated)
+        deps = [i for i, x in enumerate(items) if x.get("isDeprecatedLicenseId")]
+        if deps:
+            ent = {k: v for k, v in proto.items() if k != "isDeprecatedLicenseId"}
+            ent[idk] = "NoFlag-Future-3.1" if key == "licenses" else "NoFlag-Future-exception"
+            items.insert(rng.choice(deps) + 1, ent)
+            new.append(ent[idk])
         moved[key] = [x[idk] for x in tail] + new
         with open(path, "w") as fh:
             json.dump(data, fh)
